@@ -131,7 +131,9 @@ def _prepare_attribute_parts(
         return []
 
     if isinstance(attr, str):
-        return [int(x) if x.isdigit() else x for x in attr.split(".")]
+        # isdecimal, not isdigit: only decimal digits are accepted by int();
+        # "²" or "①" are digits too but are ordinary attribute names.
+        return [int(x) if x.isdecimal() else x for x in attr.split(".")]
 
     return [attr]
 
